@@ -1,4 +1,5 @@
 import TruthModel.Model.Offsets
+import TruthModel.Model.MsgTable
 import TruthModel.Driver.C12
 /- Driver glue for C18: S-expression case -> `TruthModel.Offsets.lowerTail` -> canonical result (the
 format of `harness/src/props/c18.rs`).  Trusted glue, no theorem depends on it. -/
@@ -57,9 +58,28 @@ def handleLow (case : Sexp) : Sexp :=
   | .panic p =>
     Sexp.app "panic" [.str "model", .str p]
 
+def toEntry (sc fl : Sexp) : MsgTable.Entry := ⟨if sc.asAtom == "z" then none else some sc.asNat, fl.asNat⟩
+
+/-- `(msgtab game hasFlags len|- ((key script flags)...) (default script flags) nscripts)`: the written table and the
+export indices of every script -/
+def handleMsgTab (case : Sexp) : Sexp :=
+  let a := case.args
+  let hasFlags := (a[1]!).asInt != 0
+  let len : Option Nat := if (a[2]!).asAtom == "-" then none else some (a[2]!).asNat
+  let table := (a[3]!).items.map fun e => ((e.items[0]!).asNat, toEntry (e.items[1]!) (e.items[2]!))
+  let d := (a[4]!).args
+  let s : MsgTable.Sparse := ⟨len, table, toEntry (d[0]!) (d[1]!)⟩
+  let n := (a[5]!).asNat
+  let dense := s.densify
+  let scr (e : MsgTable.Entry) : Sexp := match e.script with | none => .atom "z" | some k => Sexp.nat k
+  Sexp.app "ok" [
+    Sexp.app "table" (dense.map fun e => .list [scr e, Sexp.nat (if hasFlags then e.flags else 0)]),
+    Sexp.app "export" ((MsgTable.exports dense (List.range n)).map fun (k, is) => .list (Sexp.nat k :: is.map Sexp.nat))]
+
 def handle (case : Sexp) : Sexp :=
   match case.head? with
   | some "low" => handleLow case
+  | some "msgtab" => handleMsgTab case
   | _ => .atom "bad-case"
 
 end TruthModel.Driver.C18
